@@ -20,9 +20,17 @@ Definition cid := N.
 Definition mem (c : cid) (l : list cid) : bool := existsb (N.eqb c) l.
 
 (** error classes *)
-Inductive ekind := ENotFound | EOther | ECustom.
+(** [EProvider]: an error returned by the provider's StartProviding.  The code
+    only logs it, so no node of the model ever fails with it and the model has no
+    notion of a failing provider; the harness makes StartProviding fail for chosen
+    nodes, and a walk that returns such an error (or is otherwise influenced by
+    it) fails the specification: the returned error must name a node whose FETCH fails. *)
+Inductive ekind := ENotFound | EOther | ECustom | EProvider.
 Definition ekind_eqb (a b : ekind) : bool :=
-  match a, b with ENotFound, ENotFound | EOther, EOther | ECustom, ECustom => true | _, _ => false end.
+  match a, b with
+  | ENotFound, ENotFound | EOther, EOther | ECustom, ECustom | EProvider, EProvider => true
+  | _, _ => false
+  end.
 
 (** a node: its links, and what fetching it answers ([None] = success) *)
 Record node := mkNode { n_links : list cid; n_fail : option ekind }.
